@@ -15,7 +15,7 @@ from . import c01
 
 PID = "C14"
 OPS = ["run", "get_run_func", "get_run_func_vec", "get_jacobian_func", "get_nodes", "get_edges", "get_edge", "collect_edges", "collect_edges_delay",
-       "get_node_template", "getitem", "to_yaml", "deepcopy", "derive_and_mutate", "derive_edges_and_mutate", "op_update_template", "yaml_derive"]
+       "get_node_template", "getitem", "to_yaml", "deepcopy", "derive_and_mutate", "derive_edges_and_mutate", "op_update_template", "op_update_template", "to_yaml_dict_edge", "collect_edges_deep", "yaml_derive"]
 
 
 def snap_op(op):
@@ -118,9 +118,51 @@ def impl_history(case):
                         ed = {"replace": {list(o.variables)[0]: "zz_new"}, "add": ["qq' = -qq"]}
                         o2 = o.update_template(name=o.name + "_d", equations=ed, variables={"qq": "variable(0.0)", "zz_new": 1.0})
                         od = ops["__dictop"].update_template(name="dictop_d", variables={"kq": {"value": 6.0}})
+                        o4 = o.update_template(name=o.name + "_a", equations={"add": ["qa' = -qa"]}, variables={"qa": "variable(0.0)"})     # add-only edit
                         o3 = o.update_template(name=o.name + "_e")
                         for k in list(o3.variables):
                             o3.variables[k] = 5.0 if not isinstance(o3.variables[k], str) else o3.variables[k]
+                    elif name == "to_yaml_dict_edge":
+                        # a derived copy receives an edge in the documented dictionary form (list-form entry carrying an EdgeTemplate), in place; then to_yaml,
+                        # which must leave that template as it is
+                        from pyrates import EdgeTemplate
+                        nodes_ = c.get_nodes(["all"])
+                        if sp and not c.circuits and len(nodes_) >= 1:
+                            d = c.update_template(name="dict_edge_copy")
+                            eop = OperatorTemplate(name="eopd", equations=["m_e = c_e*s_e*x_e"], path=None,
+                                                   variables={"m_e": "output(0.0)", "c_e": 0.5, "s_e": "input(0.0)", "x_e": "input(0.0)"})
+                            et = EdgeTemplate(name="etd", operators=[eop], path=None)
+                            tg = [f"{n_['path']}/{o_['name']}/{d_['name']}" for n_ in flat["nodes"] for o_ in n_["ops"] for d_ in o_["vars"] if d_["decl"] == "input"]
+                            if tg:
+                                d.update_template(edges=[{"source": sp[h[1] % len(sp)], "target": tg[h[1] % len(tg)], "template": et,
+                                                          "variables": {"weight": 1.25, "etd/eopd/s_e": "source", "etd/eopd/x_e": sp[0]}}], in_place=True)
+                                before_d = json.dumps(snap_circ(d), sort_keys=True)
+                                ident = [id(e[2]) for e in d.edges]
+                                os.makedirs("dump", exist_ok=True)
+                                d.to_yaml(os.path.join(os.getcwd(), "dump", f"dd{i}.yaml"))
+                                after_d = json.dumps(snap_circ(d), sort_keys=True)
+                                if before_d != after_d or ident != [id(e[2]) for e in d.edges]:
+                                    out["changed_by"].append({"op": i, "name": name, "diff": "to_yaml changed the template it was called on (an edge entry in list form)"})
+                    elif name == "collect_edges_deep":
+                        # three hierarchy levels, an edge with a string-valued attribute (an edge-template input bound to a variable path) on the middle level;
+                        # collecting the edges of the top level any number of times must not rewrite the middle level's edge definition
+                        from pyrates import EdgeTemplate
+                        opx = OperatorTemplate(name="opx", equations=["v' = -v + r_in"], variables={"v": "output(0.5)", "r_in": "input(0.0)"}, path=None)
+                        ntx = NodeTemplate(name="ntx", operators=[opx], path=None)
+                        eopx = OperatorTemplate(name="eopx", equations=["m_x = s_x*x_x"], path=None, variables={"m_x": "output(0.0)", "s_x": "input(0.0)", "x_x": "input(0.0)"})
+                        etx = EdgeTemplate(name="etx", operators=[eopx], path=None)
+                        low = CircuitTemplate(name="low", nodes={"a": ntx, "b": ntx}, edges=[("a/opx/v", "b/opx/r_in", None, {"weight": 2.0})], path=None)
+                        mid = CircuitTemplate(name="mid", circuits={"l2": low, "l2b": low},
+                                              edges=[("l2/a/opx/v", "l2b/b/opx/r_in", etx, {"weight": 1.5, "etx/eopx/s_x": "source", "etx/eopx/x_x": "l2/b/opx/v"})], path=None)
+                        top = CircuitTemplate(name="top", circuits={"l1": mid}, edges=[], path=None)
+                        before_m = json.dumps(snap_circ(mid), sort_keys=True)
+                        e1 = top.collect_edges()
+                        e2 = top.collect_edges()
+                        top.get_edges("all", "all") if h[1] % 2 else None
+                        if json.dumps(snap_circ(mid), sort_keys=True) != before_m:
+                            out["changed_by"].append({"op": i, "name": name, "diff": "collect_edges on the top level rewrote an edge definition of a sub-circuit"})
+                        elif [(x[0], x[1], {k: repr(v) for k, v in x[3].items()}) for x in e1] != [(x[0], x[1], {k: repr(v) for k, v in x[3].items()}) for x in e2]:
+                            out["errors"].append({"op": i, "name": name, "what": "two calls of collect_edges returned different edges"})
                     elif name == "yaml_derive":
                         pass
                 except Exception as e:
